@@ -65,6 +65,35 @@ def compute (mat : Mat α) (shift : α) : TridiagQR α :=
   let st := (List.range (n - 1)).foldl (facStep n Ts) ⟨#[], #[], Rd, Ts, vzero (n - 2)⟩
   ⟨n, shift, st.cos, st.sin, Td, Ts, st.Rd, st.Rs, st.Rs2⟩
 
+/-- `facStep` on an EXISTING object: `*c`, `*s` are written through the pointers into the (resized) arrays the object owns -/
+def refacStep (n : Nat) (Tsubd : Vec α) (st : FacSt α) (i : Nat) : FacSt α :=
+  let rcs := Gen.Givens.compute_rotation (vget st.Rd i) (vget Tsubd i)
+  let r := rcs.1; let c := rcs.2.1; let s := rcs.2.2
+  let Rd := vset st.Rd i r
+  let Tii1 := vget st.Rs i
+  let Ti1i1 := vget Rd (i + 1)
+  let Rs := vset st.Rs i (c * Tii1 - s * Ti1i1)
+  let Rd := vset Rd (i + 1) (s * Tii1 + c * Ti1i1)
+  if i < n - 2 then
+    let Rs2 := vset st.Rs2 i ((-s) * vget Rs (i + 1))
+    let Rs := vset Rs (i + 1) (vget Rs (i + 1) * c)
+    ⟨vset st.cos i c, vset st.sin i s, Rd, Rs, Rs2⟩
+  else
+    ⟨vset st.cos i c, vset st.sin i s, Rd, Rs, st.Rs2⟩
+
+/-- `old.compute(mat, shift)` on an object that already holds a factorization: `m_T_diag`, `m_T_subd`, `m_R_diag`, `m_R_supd`
+    are resized and then assigned as a whole; `m_rot_cos`, `m_rot_sin`, `m_R_supd2` are resized (`vresize`: contents kept when the
+    size is unchanged, `junk` otherwise) and written entry by entry.  `c08_tqr_recompute`: nothing of `old` / `junk` survives. -/
+def recompute (old : TridiagQR α) (junk : α) (mat : Mat α) (shift : α) : TridiagQR α :=
+  let n := mat.rows
+  let Td : Vec α := vofFn n (fun i => mat.get i i)
+  let Ts0 : Vec α := vofFn (n - 1) (fun i => mat.get (i + 1) i)
+  let Ts := deflate Td Ts0 n
+  let Rd : Vec α := Td.map (fun a => a - shift)
+  let st := (List.range (n - 1)).foldl (refacStep n Ts)
+    ⟨vresize old.cos (n - 1) junk, vresize old.sin (n - 1) junk, Rd, Ts, vresize old.R_supd2 (n - 2) junk⟩
+  ⟨n, shift, st.cos, st.sin, Td, Ts, st.Rd, st.Rs, st.Rs2⟩
+
 /-- tridiagonal-plus matrix from its diagonals: `lo` first subdiagonal, `d` diagonal, `u1`, `u2` first/second superdiagonal -/
 def bandMat (n : Nat) (lo d u1 u2 : Nat → α) : Mat α :=
   Mat.ofFn n n (fun i j => if i = j then d i else if i + 1 = j then u1 i else if i + 2 = j then u2 i else if i = j + 1 then lo j else zero)
